@@ -415,7 +415,7 @@ def run_job(ctx, job):
         for rsvc in svcs:
             for status in range(256):
                 for ext in EXTS:
-                    for estatus in ([0] if (status % 16 or ext) else [0, 1, 2, 3, 0x64, 0x65, 0x69, 0xFFFF]):
+                    for estatus in ([0, 1, 2, 3, 0x64, 0x65, 0x69, 0xFFFF] if ((status in (0, 6) or status % 16 == 0) and len(ext) < 2) else [0]):
                         discs = check_matrix(kind, rsvc, status, ext, estatus)
                         ctx.case(("m", kind, rsvc, status, tuple(ext), estatus), status != 0 or estatus != 0, ["matrix"],
                                  sample={"kind": kind, "reply_service": rsvc, "status": status, "ext": ext, "encap_status": estatus} if status == 6 else None)
